@@ -23,6 +23,8 @@ def lvalue_key(n):
         return n.qn or n.n
     if n.k == 'MemberExpr':
         b = n.child('base')
+        if not n.n:
+            return lvalue_key(b)  # anonymous struct/union member: transparent
         if b is not None and b.k == 'CXXThisExpr':
             return 'this->' + n.n
         bk = lvalue_key(b)
